@@ -11,6 +11,7 @@ import (
 	"errors"
 	"fmt"
 	"math/rand"
+	"strings"
 	"time"
 
 	"github.com/yandex/pandora/core"
@@ -27,7 +28,10 @@ type Case struct {
 	EmptyChosen bool `json:"chosencases_empty_list,omitempty"`
 	// CloseFails: the ammo file reads fine, but closing it reports an error (harness filesystem)
 	CloseFails bool `json:"closing_the_ammo_file_fails,omitempty"`
-	Text   string        `json:"text,omitempty"`
+	// LongLine: one entry's URI is 70 KB long and maxammosize is raised to 200000 in the provider
+	// config — whatever a format makes of such a line, it makes the same of it in both modes
+	LongLine bool   `json:"one_uri_of_70kb_with_maxammosize,omitempty"`
+	Text     string `json:"text,omitempty"`
 }
 
 var typeName = map[string]string{"uri": "uri", "uripost": "uripost", "raw": "raw", "jsonline": "http/json"}
@@ -42,6 +46,9 @@ func run(c Case, path string, preload bool, max int) outcome {
 	conf := map[string]any{"type": typeName[c.File.Format], "file": path, "limit": c.Limit, "passes": c.Passes}
 	if preload {
 		conf["preload"] = true
+	}
+	if c.LongLine {
+		conf["maxammosize"] = 200000
 	}
 	if len(c.Chosen) > 0 {
 		var cc []any
@@ -179,6 +186,11 @@ func runCase(res *vkit.Result, c Case) {
 		o    outcome
 	}{{"stream", off}, {"preload", on}} {
 		n := len(side.o.items)
+		if c.LongLine {
+			// whether a format takes a line of 70 KB at all is not this property's business (the
+			// line decoders refuse it): only the comparison of the two modes above is
+			break
+		}
 		if want >= 0 && n != want {
 			res.Violate(key(side.name, "count"), fmt.Sprintf("%d ammo delivered, model says %d (entries per pass %d of which %d match, limit %d counts delivered entries, passes %d); end %s", n, want, len(pass), len(match), c.Limit, c.Passes, short(side.o.class)), c)
 			continue
@@ -198,7 +210,7 @@ func runCase(res *vkit.Result, c Case) {
 	}
 	res.Count("pairs_"+sel, 1)
 	res.Count("ammo_compared", int64(len(off.items)))
-	res.Eval(c.Text+fmt.Sprint(c.Limit, c.Passes, c.Chosen, c.EmptyChosen, c.CloseFails), len(pass) >= 2)
+	res.Eval(c.Text+fmt.Sprint(c.Limit, c.Passes, c.Chosen, c.EmptyChosen, c.CloseFails, c.LongLine), len(pass) >= 2)
 	if c.File.Layout.Seed%300 == 0 {
 		res.Sample(map[string]any{"format": c.File.Format, "limit": c.Limit, "passes": c.Passes, "chosencases": c.Chosen, "file_text": c.Text,
 			"delivered_stream": len(off.items), "delivered_preload": len(on.items), "end_stream": off.class, "end_preload": on.class})
@@ -281,6 +293,15 @@ func gen(rng *rand.Rand) Case {
 	}
 	c := Case{File: f, Limit: []int{0, 0, 1, 2, 3, 5, 9}[rng.Intn(7)], Passes: []int{0, 1, 1, 2, 3}[rng.Intn(5)]}
 	c.CloseFails = rng.Intn(12) == 0
+	if rng.Intn(25) == 0 {
+		for _, it := range f.Items {
+			if it.Entry != nil {
+				it.Entry.URI += "&long=" + strings.Repeat("0123456789", 7000)
+				c.LongLine = true
+				break
+			}
+		}
+	}
 	switch rng.Intn(4) {
 	case 0:
 		c.EmptyChosen = rng.Intn(2) == 0
